@@ -14,19 +14,59 @@ META = {}
 # running one scenario on the real SecopClient
 # ----------------------------------------------------------------------------------------
 class PhasePolicy(vsched.Policy):
-    """no preemption during the set-up phase (connect); afterwards `inner` decides; its step index starts at 0 there"""
+    """no preemption during the set-up phase (connect) and, when the case says `quiet_until: t`, during the first t
+    virtual seconds after it (the default schedule runs; the exploration budget goes to what happens afterwards, e.g. on the
+    time-out path); afterwards `inner` decides; its step index starts at 0 there"""
 
-    def __init__(self, inner):
+    def __init__(self, inner, quiet=None):
         self.inner = inner
         self.offset = None
+        self.quiet = quiet
+        self.sched = None
+        self.threshold = None
 
     def start(self, sched):
-        self.offset = len(sched.choices)
+        if self.quiet:
+            self.sched = sched
+            self.threshold = sched.now + self.quiet
+        else:
+            self.offset = len(sched.choices)
 
     def choose(self, enabled, default, step, labels):
         if self.offset is None:
-            return default
+            if self.threshold is None or self.sched.now < self.threshold:
+                return default
+            self.offset = step
         return self.inner.choose(enabled, default, step - self.offset, labels)
+
+
+class HoldPolicy(vsched.Policy):
+    """one long preemption: thread `name` is left alone after it has been scheduled `k` times — it stays suspended at that
+    synchronisation point while all the others run, until nobody else can (then it goes on and nothing is held any more).
+    The class of schedules a bounded number of preemptions does not reach: a check-then-act window that stays open while
+    another thread runs a whole `disconnect()`."""
+
+    def __init__(self, name, k):
+        self.name = name
+        self.k = k
+        self.quanta = 0
+        self.released = False
+
+    def choose(self, enabled, default, step, labels):
+        names = [t.name for t in enabled]
+        if self.released or self.name not in names:
+            return default
+        i = names.index(self.name)
+        if self.quanta < self.k:
+            if default == i:
+                self.quanta += 1
+            return default
+        others = [j for j in range(len(enabled)) if j != i]
+        return default if default != i else others[0]
+
+
+def hold_targets(case):
+    return ['c%d' % i for i in range(len(case['callers']))] + (['closer'] if case.get('closer') is not None else [])
 
 
 def _traced_client_class(fine):
@@ -65,7 +105,7 @@ def run_case(case, policy, max_steps=6000):
     """one run of the real client under one schedule; returns (scheduler, observation dict)"""
     import frappy.client as fc
     from frappy.errors import SECoPError
-    pol = PhasePolicy(policy)
+    pol = PhasePolicy(policy, case.get('quiet_until'))
     s = vsched.Scheduler(policy=pol, max_steps=max_steps)
     instr = fakes.Instr(s)
     peer = fakes.Peer(instr, case['peer'])
@@ -142,6 +182,13 @@ def run_case(case, policy, max_steps=6000):
                 ts.append(s.spawn('closer', closer, (case['closer'],)))
             for t in ts:
                 vsched._ThreadHandle(s, t).join()
+            if case.get('settle') and case.get('closer') is not None:
+                # the user has shut the client down: let everything come to rest, then look at what is left
+                s.time.sleep(case['settle'])
+                workers = sorted(t.name for t in s.threads if t.status != 'done'
+                                 and t.name.rstrip('0123456789') in ('rxthread', 'txthread', 'reconnect'))
+                extra['settled'] = {'alive': workers, 'connected': client.io is not None}
+                instr.ev('settled', workers, extra['settled']['connected'])
             instr.ev('final.begin')
             try:
                 client.disconnect()
@@ -170,7 +217,9 @@ def run_case(case, policy, max_steps=6000):
                        | ({'main'} if 'final' not in extra and extra.get('connect') == 'ok' else set()))
     obs = {
         'callers': [outcomes.get(i, {'kind': 'none'}) for i in range(ncall)],
-        'errors': dict(res['errors']),
+        # (a thread unwound by the scheduler after an abort may trip over a lock in its `finally`: not an observation)
+        'errors': {t.name: type(t.error).__name__ for t in s.threads
+                   if t.error is not None and 'outside the scheduler' not in str(t.error)},
         'alive': alive,
         'deadlock': bool(res['deadlock']),
         'aborted': res['aborted'],
@@ -254,10 +303,11 @@ def to_labels(obs):
     closed_at = []
     closing_threads = set()
     rel_hold = {}       # thread -> [entry names taken by its disconnect]
-    rx = {'mode': None, 'line': False, 'found': None, 'fails': 0, 'removed': False, 'clean': False, 'set_for': None,
+    rx = {'mode': None, 'line': False, 'found': None, 'fails': 0, 'removed': None, 'clean': False, 'set_for': None,
           'requeue': [], 'took': []}
     has_lock = any(e[1] == 'lk.acq' and e[2] == 'reqlock' for e in ev)
     notes = []
+    cut = None          # number of labels when a later connection was established: the matching model is of ONE connection
 
     def rx_flush_lazy():
         # a line that never reached the matching code (event line / undecodable): dropped
@@ -267,12 +317,18 @@ def to_labels(obs):
 
     def rx_cleanup_lazy():
         if rx['clean'] and not has_lock:
-            labels.append(['rxCleanup', False, ('took', rx['took'])])
+            labels.append(['rxCleanup', ('id', None), ('took', rx['took'])])
             rx.update(clean=False, took=[])
 
     for e in ev[start + 1:]:
         th, kind = e[0], e[1]
         is_rx, is_tx = th.startswith('rxthread'), th.startswith('txthread')
+        if kind == 'c.new' and e[2] and cut is None:
+            rx_flush_lazy()
+            rx_cleanup_lazy()
+            cut = len(labels)
+        if cut is not None and kind not in ('call.begin', 'call.end', 'close.end', 'final.end'):
+            continue
         if is_rx and kind not in ('d.pop', 'lk.acq', 'd.next', 'd.next.error', 'd.len') and not (kind == 'q.get' and e[2] == 'pending'):
             rx_flush_lazy()
             if kind not in ('l.len',):
@@ -332,12 +388,13 @@ def to_labels(obs):
             closing_threads.add(th)
         elif kind == 'l.pop' and is_rx:
             labels.append(['rxCleanPop'])
-            rx.update(clean=True, removed=False, mode='clean', took=[])
+            rx.update(clean=True, removed=None, mode='clean', took=[])
         elif kind == 'd.pop' and is_rx:
             if rx['mode'] == 'clean':
-                rx['removed'] = e[4] is not None
+                if e[4] is not None:
+                    rx['removed'] = e[4]       # the entry the implementation popped from active_requests
                 if not has_lock:
-                    rx['pending_label'] = ['rxCleanup', rx['removed'], ('took', rx['took'])]
+                    rx['pending_label'] = ['rxCleanup', ('id', rx['removed']), ('took', rx['took'])]
                     labels.append(rx['pending_label'])
                     rx.update(clean=False, mode=None)
             else:
@@ -361,7 +418,7 @@ def to_labels(obs):
                 rel_hold.setdefault(th, []).append(name)
         elif kind == 'lk.rel' and e[2] == 'reqlock' and is_rx:
             if rx['mode'] == 'clean':
-                labels.append(['rxCleanup', rx['removed'], ('took', rx['took'])])
+                labels.append(['rxCleanup', ('id', rx['removed']), ('took', rx['took'])])
                 rx.update(clean=False, mode=None, took=[])
             elif rx['mode'] == 'match':
                 labels.append(['rxMatch', ('id', rx['found']), ('took', rx['took'])])
@@ -423,8 +480,8 @@ def to_labels(obs):
         if lb[0] == 'peerEmit':
             idx = lb[4][1]
             lb[4] = sent[idx] if idx is not None and idx < len(sent) else None
-        if lb[0] == 'rxMatch' and isinstance(lb[1], tuple):
-            lb[1] = ids.get(lb[1][1]) if lb[1][1] is not None else None
+        if lb[0] in ('rxMatch', 'rxCleanup') and isinstance(lb[1], tuple):
+            lb[1] = ids.get(lb[1][1], 10 ** 6) if lb[1][1] is not None else None
         if lb[0] in ('rxMatch', 'rxCleanup') and isinstance(lb[2], tuple):
             lb[2] = [ids.get(n, 10 ** 6) for n in lb[2][1]]
     # callers
@@ -458,6 +515,8 @@ def to_labels(obs):
                 rec['seq'] = uid
         elif out['kind'] == 'none':
             rec['out'] = 'other'
+        if cut is not None and 'id' not in c:
+            rec['out'] = 'later'             # served (or not) by a later connection: outside the matching model
         cobs.append(rec)
     return {'labels': labels, 'callers': cobs, 'closedAt': closed_at, 'ids': ids, 'seqs': seqs, 'notes': notes}
 
@@ -506,6 +565,7 @@ def to_shutdown_acts(obs):
             else:
                 acts.append({'a': ['put']})
                 if is_rx and e[3] in rx_made:
+                    rx_made.discard(e[3])      # (a later put of the same entry by the rx thread requeues it after parking)
                     rx_skip[0] = True
         elif kind == 'a.set' and e[2] == '_running' and e[3] is False:
             if is_tx or is_rx:
@@ -540,24 +600,31 @@ def to_shutdown_acts(obs):
             ph[th] = 'join'
         elif kind == 'th.join' and e[2].startswith('txthread'):
             dstep(th, 'd5', 'd6')
+            ph[th] = 'txjoined'
         elif kind == 'th.join' and e[2].startswith('rxthread'):
             dstep(th, 'd8', 'd9')
+            ph[th] = 'rxjoined'
+        elif kind == 'a.get' and e[2] == '_txthread' and ph.get(th) == 'txjoined':
+            # `if self._txthread is txthread: self._txthread = None` — in the model (no connect()) the attribute is clear afterwards
+            dstep(th, 'd6', 'd7')
+            ph[th] = 'join'
         elif kind == 'a.set' and e[2] == '_txthread' and e[3] is None:
             if is_tx and ph.get(th) is None:
                 if tx_proc[0]:
                     acts.append({'a': ['tx', False], 'pc': 'check'})
                     tx_proc[0] = False
                 acts.append({'a': ['tx', False], 'pc': 'd0'})
-            else:
-                dstep(th, 'd6', 'd7')
         elif kind == 'a.get' and e[2] == '_rxthread' and ph.get(th) == 'join':
             dstep(th, 'd7', 'd10' if e[3] is None else 'd8')
+            ph[th] = 'ioguard' if e[3] is None else 'rxwait'     # rxwait: the next read of io is `newio = self.io`
+        elif kind == 'a.get' and e[2] == '_rxthread' and ph.get(th) == 'rxjoined':
+            dstep(th, 'd9', 'd10')
+            ph[th] = 'ioguard'
         elif kind == 'a.set' and e[2] == '_rxthread' and e[3] is None:
             if is_rx and ph.get(th) is None:
                 acts.append({'a': ['rx', False], 'pc': 'd0'})
-            else:
-                dstep(th, 'd9', 'd10')
-        elif kind == 'a.set' and e[2] == 'io' and e[3] is None and ph.get(th) == 'join':
+        elif kind == 'a.get' and e[2] == 'io' and ph.get(th) == 'ioguard':
+            # `if self.io is io: self.io = None`
             dstep(th, 'd10', 'd11')
             ph[th] = 'final'
         elif kind == 'a.get' and e[2] == '_running':
@@ -654,6 +721,32 @@ def catalogue():
         {'name': 'user disconnect and peer drop at once, attribute-level yield points',
          'callers': [rp, rq], 'closer': {'delay': 0}, 'fine': True,
          'peer': {'rules': [{'on': 'read m:p', 'emit': [[0, reply_line(rp, 101)]], 'drop': 0.0}]}},
+        {'name': 'user disconnect while two requests are being queued, healthy peer',
+         'callers': [rp, rq], 'closer': {'delay': 0},
+         'peer': {'rules': [{'on': 'read m:p', 'emit': [[0, reply_line(rp, 101)]]},
+                            {'on': 'read m:q', 'emit': [[0, reply_line(rq, 102)]]}]}},
+        # ---- the time-out path with equal keys
+        {'name': 'two requests with the same key, the filed one is never answered: both run into their time-out',
+         'callers': [rp, rp],
+         'peer': {'rules': [{'on': 'read m:p', 'nth': 1, 'emit': [[0, reply_line(rp, 102)]]}]}},
+        {'name': 'late reply of a timed-out request racing its clean-up and a new request with the same key',
+         'callers': [rp, dict(rp, delay=10.5)], 'quiet_until': 10.4,
+         'peer': {'rules': [{'on': 'read m:p', 'nth': 0, 'emit': [[10.5, reply_line(rp, 101)]]},
+                            {'on': 'read m:p', 'nth': 1, 'emit': [[0, reply_line(rp, 102)]]}]}},
+        # ---- the reconnect thread (activated client), the node accepts connections again
+        {'name': 'activated client, peer drop after the reply: the final user shutdown races the reconnect thread',
+         'callers': [rp], 'activate': True,
+         'peer': {'reconnect': 'accept', 'rules': [{'on': 'read m:p', 'emit': [[0, reply_line(rp, 101)]], 'drop': 0.0}]}},
+        {'name': 'the same with attribute-level yield points',
+         'callers': [rp], 'activate': True, 'fine': True,
+         'peer': {'reconnect': 'accept', 'rules': [{'on': 'read m:p', 'emit': [[0, reply_line(rp, 101)]], 'drop': 0.0}]}},
+        {'name': 'activated client, peer drop, user disconnect and a request at once; what is left when all is at rest',
+         'callers': [rp], 'activate': True, 'closer': {'delay': 0}, 'settle': 25,
+         'peer': {'reconnect': 'accept', 'rules': [{'on': 'read m:p', 'emit': [[0, reply_line(rp, 101)]], 'drop': 0.0}]}},
+        {'name': 'activated client, a request after the peer drop (reconnect by the caller or by the reconnect thread)',
+         'callers': [rp, dict(rq, delay=0.3)], 'activate': True,
+         'peer': {'reconnect': 'accept', 'rules': [{'on': 'read m:p', 'emit': [[0, reply_line(rp, 101)]], 'drop': 0.0},
+                                                   {'on': 'read m:q', 'emit': [[0, reply_line(rq, 102)]]}]}},
     ]
 
 
@@ -720,8 +813,15 @@ def gen_case(rng, big):
     case = {'callers': callers, 'peer': peer}
     if rng.random() < 0.35:
         case['closer'] = {'delay': rng.choice([0, 0, 0.1, 0.7, 10.2])}
-    if rng.random() < 0.15:
+    if rng.random() < 0.25:
         case['activate'] = True
+        r = rng.random()
+        if r < 0.5:
+            peer['reconnect'] = 'accept'       # the node is back at once
+            if r < 0.15:
+                peer['refuse_first'] = 1       # ... after one refused attempt
+    if case.get('closer') is not None and rng.random() < 0.3:
+        case['settle'] = 25
     if rng.random() < 0.25:
         case['fine'] = True
     return case
@@ -740,6 +840,12 @@ def requests_for(case, obs, schedule):
     judge = dict(base, k='judge', callers=L['callers'], closedAt=L['closedAt'], slackMs=20,
                  threadErrors=sorted(f'{k}:{v}' for k, v in obs['errors'].items()), disconnectRaised=raised,
                  alive=obs['alive'], deadlock=obs['deadlock'], unterminated=obs['aborted'] is not None)
+    if 'settled' in obs['extra']:
+        ev = obs['events']
+        cb = next((i for i, e in enumerate(ev) if e[1] == 'close.begin'), len(ev))
+        ends = {e[2]: i for i, e in enumerate(ev) if e[1] == 'call.end'}
+        judge['afterShutdown'] = dict(obs['extra']['settled'],
+                                      userActivity=any(ends.get(i, len(ev)) > cb for i in range(len(case['callers']))))
     reqs = [dict(base, k='replay', locked=True), judge]
     if case.get('fine'):
         acts = to_shutdown_acts(obs)
@@ -798,6 +904,9 @@ def assess(case, schedule, obs, L, replay_ans, judge_ans, res, ctx, shut_ans=Non
     j = judge_ans
     if j['first_parked'] is not None:
         out.append(('C11:no_parking', f'a request is parked with its key free (state {j["first_parked"]} of the run)'))
+    if j['first_lost'] is not None:
+        out.append(('C11:no_lost_request', 'a request whose caller has neither been answered, released nor timed out is '
+                    f'nowhere in the client any more (state {j["first_lost"]} of the run)'))
     if not j['no_double']:
         out.append(('C11:no_double_delivery', 'one received line was handed to two callers'))
     for i, v in enumerate(j['verdicts']):
@@ -813,11 +922,26 @@ def assess(case, schedule, obs, L, replay_ans, judge_ans, res, ctx, shut_ans=Non
                         f'caller {i} ({sent_text(c)}) ended with {obs["callers"][i]}'))
         else:
             out.append((f'C11:{v}', f'caller {i} ({sent_text(c)}): {v}: {obs["callers"][i]}'))
+    if not j.get('shutdown_final', True):
+        st = obs['extra'].get('settled')
+        out.append(('C11:shutdown:not-final', f'some time after the user\'s disconnect() had returned, with no request since: '
+                    f'worker threads running {st["alive"]}, connected: {st["connected"]}'))
     if not j['shutdown_clean']:
         if obs['deadlock']:
             out.append(('C11:shutdown:deadlock', 'all threads blocked without a time-out pending'))
         if obs['aborted'] is not None and not obs['deadlock']:
             who = '+'.join(sorted({a.rstrip('0123456789') for a in obs['alive']}))
+            # (canonicalisation only) did a request connect anew while a disconnect() called by the user was in progress?
+            depth, overlap = 0, False
+            for e in obs['events']:
+                if e[1] in ('close.begin', 'final.begin'):
+                    depth += 1
+                elif e[1] in ('close.end', 'final.end'):
+                    depth -= 1
+                elif e[1] == 'c.new' and e[2] and depth > 0 and e[0].startswith('c') and e[0] != 'closer':
+                    overlap = True
+            if overlap:
+                who += ':request-connects-during-user-disconnect'
             out.append((f'C11:shutdown:no-termination:{who}', f'run aborted: {obs["aborted"]}; threads still running: {obs["alive"]}'))
         for k, v in sorted(obs['errors'].items()):
             out.append((f'C11:shutdown:thread-error:{k.rstrip("0123456789")}:{v}', f'{v} escaped thread {k}'))
@@ -864,50 +988,182 @@ def effective_schedule(obs):
     return [c[1] for c in obs['choices']]
 
 
+# ----------------------------------------------------------------------------------------
+# the connection object: real AsynTcp on loopback sockets, the scripted FakeConn, the client end to end on real sockets
+# ----------------------------------------------------------------------------------------
+CONN_CATALOGUE = [
+    ['peerFin', 'readline', 'shutdown', 'disconnect'],
+    ['peerRst:linger', 'readline', 'shutdown', 'disconnect'],
+    ['peerRst:linger', 'shutdown', 'readline', 'send', 'disconnect'],
+    ['peerRst:unread', 'readline', 'shutdown', 'send'],
+    ['peerSend', 'peerRst:linger', 'readline', 'readline', 'shutdown'],
+    ['peerSend', 'peerFin', 'readline', 'readline', 'send', 'send', 'shutdown'],
+    ['readline', 'shutdown', 'readline', 'send', 'shutdown', 'disconnect', 'shutdown', 'disconnect', 'readline', 'send'],
+    ['peerSend', 'shutdown', 'readline', 'readline'],
+    ['peerRst:linger', 'send', 'send', 'shutdown'],
+    ['peerFin', 'send', 'send', 'readline'],
+    ['peerRst:linger', 'disconnect'],
+    ['peerFin', 'shutdown', 'shutdown'],
+    ['peerSend', 'peerSend', 'readline', 'peerRst:unread', 'readline', 'readline', 'shutdown', 'disconnect'],
+]
+CONN_STEPS = (['peerSend'] * 2 + ['peerFin', 'peerRst:linger', 'peerRst:unread'] + ['readline'] * 4 + ['send'] * 2
+              + ['shutdown'] * 2 + ['disconnect'])
+E2E_KINDS = ['fin', 'rst', 'unread', 'user']
+E2E_BOUND_MS = 3000
+
+
+def gen_conn_script(rng):
+    return [rng.choice(CONN_STEPS) for _ in range(rng.randint(3, 8))]
+
+
+def run_conn(impl, script):
+    from vlib import loopback
+    return loopback.run_conn_script(script) if impl == 'tcp' else loopback.run_fake_script(script)
+
+
+def conn_sig(events, k):
+    e = events[k]
+    return 'C11:conn:' + ':'.join([e[1]] + [str(x) for x in e[2]])
+
+
+def conn_stream(ctx, res):
+    scripts = [list(x) for x in CONN_CATALOGUE] + [gen_conn_script(ctx.rng) for _ in range(ctx.budget(40, 500))]
+    nfake = len(CONN_CATALOGUE) + ctx.budget(25, 300)
+    cases = [('tcp', sc) for sc in scripts] + [('fake', sc) for sc in scripts[:nfake]]
+    runs = [(impl, sc, run_conn(impl, sc)) for impl, sc in cases]
+    answers = ctx.driver.batch([{'p': 'C11', 'k': 'conn', 'events': ev} for _, _, ev in runs])
+    seen = set()
+    for (impl, sc, ev), a in zip(runs, answers):
+        if 'driver_error' in a:
+            raise RuntimeError(f'driver error: {a}')
+        res.evaluations += 1
+        res.traces += 1
+        res.count('conn-' + impl)
+        for e in ev:
+            if e[0] == 'call':
+                res.count('conn.%s=%s' % (e[1], e[2][0]))
+        if any(e[0] in ('peerFin', 'peerRst') for e in ev) and any(e[0] == 'call' for e in ev):
+            res.nontriv(['conn', impl, ev])
+        if a['refused_at'] is not None and ctx.model_ok:
+            res.disagreements.append({'model': f'connection model does not allow event {a["refused_at"]}: {ev[a["refused_at"]]}',
+                                      'impl': {'impl': impl, 'events': ev}, 'case': {'conn_script': sc, 'impl': impl}})
+        if a['first_bad'] is not None:
+            k = a['first_bad']
+            if impl == 'fake':     # the stand-in itself is wrong: a harness defect, never a finding about frappy
+                res.disagreements.append({'model': f'FakeConn breaks the connection contract at event {k}: {ev[k]}',
+                                          'impl': {'impl': impl, 'events': ev}, 'case': {'conn_script': sc, 'impl': impl}})
+                continue
+            sig = conn_sig(ev, k)
+            if sig in seen:
+                continue
+            seen.add(sig)
+
+            def fails(cand):
+                ev2 = run_conn(impl, cand)
+                a2 = ctx.driver.batch([{'p': 'C11', 'k': 'conn', 'events': ev2}])[0]
+                return a2['first_bad'] is not None and conn_sig(ev2, a2['first_bad']) == sig
+            small = ddmin(sc, fails, max_tests=40)
+            ev3 = run_conn(impl, small)
+            res.violations.append({'sig': sig, 'what': f'AsynTcp on a loopback socket, script {small}: observed {ev3} - '
+                                   f'the call {ev[k][1]}() ended with {ev[k][2]}, which the client does not expect there',
+                                   'case': {'conn_script': small, 'impl': impl}})
+    # ---- the client on real sockets
+    from vlib import loopback
+    for kind in E2E_KINDS * ctx.budget(1, 3):
+        obs = loopback.run_client_drop(kind)
+        a = ctx.driver.batch([e2e_request(obs)])[0]
+        if 'driver_error' in a:
+            raise RuntimeError(f'driver error: {a}')
+        res.evaluations += 1
+        res.traces += 1
+        res.count('e2e-%s=%s' % (kind, obs['out']))
+        res.nontriv(['e2e', kind, obs['out']])
+        for sig, what in e2e_assess(obs, a):
+            if sig not in seen:
+                seen.add(sig)
+                res.violations.append({'sig': sig, 'what': what, 'case': {'e2e': kind}})
+
+
+def e2e_request(obs):
+    return {'p': 'C11', 'k': 'release', 'out': obs['out'], 'seq': 0, 'elapsedMs': obs['elapsedMs'], 'boundMs': E2E_BOUND_MS,
+            'threadErrors': obs['threadErrors'], 'disconnectRaised': obs['disconnectRaised'], 'alive': obs['alive'],
+            'unterminated': obs['unterminated']}
+
+
+def e2e_assess(obs, a):
+    out = []
+    kind = obs['drop']
+    if not a['released_promptly']:
+        out.append((f'C11:e2e:{kind}:not-released:{obs["out"]}',
+                    f'real sockets, connection lost by "{kind}" while a request was pending: the caller ended with '
+                    f'{obs["out"]} after {obs["elapsedMs"]} ms (expected: a connection error within {E2E_BOUND_MS} ms)'))
+    if not a['shutdown_clean']:
+        out.append((f'C11:e2e:{kind}:shutdown', f'real sockets, connection lost by "{kind}": thread errors {obs["threadErrors"]}, '
+                    f'disconnect() raised {obs["disconnectRaised"]}, threads left {obs["alive"]}'))
+    return out
+
+
 META = {
-    'level_text': 'Three models of the repaired SecopClient, theorems for all reachable states (any number of callers, requests, '
+    'level_text': 'Four models of the repaired SecopClient, theorems for all reachable states (any number of callers, requests, '
                   'lines, any interleaving, disconnects at any point).  (1) matching LTS, one action per shared access of caller, '
                   'tx, rx and disconnecting threads: reply_matches_partial (known actions), no_double_delivery, no_parking, '
-                  'disconnect_releases_all (a lone disconnect can run to its end and releases every queued/filed/parked request), '
-                  'table facts by decide over the generated REQUEST2REPLY.  (2) timed layer (clock, put/wait deadlines, bounded '
-                  'txq): wait_bounded (every caller returns by t_put + 3 s + 10 s; fairness assumed only for the callers\' own '
-                  'timers).  (3) shutdown protocol (program counters of tx, rx and any number of user threads in disconnect(), '
-                  '_txthread/_rxthread, markers, joins): no_join_cycle, shutdown_terminates (deadlock-freedom after any shutdown '
-                  'request: user, peer, failing send, or several).  Counter-traces: reply_matches_fails (F21, recorded), '
-                  'reply_fresh_fails, no_parking_unlocked_fails (the client before the repair).  Model (1) is replayed against '
-                  'every run of the real client under a deterministic scheduler; the Lean monitors judge every run.',
+                  'no_lost_request (every queued request is still in the machinery or its caller is answered / released / timed out; '
+                  'the keys of active_requests are pairwise different), disconnect_releases_all and '
+                  'disconnect_leaves_nobody_waiting (a lone disconnect can run to its end, releases every queued/filed/parked '
+                  'request and afterwards every request ever queued is accounted for), table facts by decide over the generated '
+                  'REQUEST2REPLY.  (2) timed layer (clock, put/wait deadlines, bounded txq): wait_bounded (every caller returns by '
+                  't_put + 3 s + 10 s; fairness assumed only for the callers\' own timers).  (3) shutdown protocol (program counters '
+                  'of tx, rx and any number of user threads in disconnect(), _txthread/_rxthread, markers, joins): no_join_cycle, '
+                  'shutdown_terminates (deadlock-freedom after any shutdown request: user, peer, failing send, or several).  '
+                  '(4) connection object (one TCP endpoint: peer lines / FIN / RST, client readline / send / shutdown / disconnect): '
+                  'conn_contract (shutdown and disconnect never raise, readline raises nothing but ConnectionClosed and does so '
+                  'on a dead connection, only lines the peer sent are returned).  Counter-traces: reply_matches_fails (F21, '
+                  'recorded), reply_fresh_fails, no_parking_unlocked_fails (the client before the repair).  Models (1) and (3) are '
+                  'replayed against every run of the real client under a deterministic scheduler, model (4) against real AsynTcp '
+                  'objects on loopback sockets and against the scripted FakeConn; the Lean monitors judge every run.',
     'level_note': 'Trusted: Lean kernel + propext/Classical.choice/Quot.sound; queue.Queue / Event / RLock / join semantics are '
                   'those of vlib.sched (modelled, not verified); sections under the request lock are atomic in the model; the '
-                  'conversion of the effect log to labels (harness) and the JSON glue.  Models (2) and (3) are tied to the source by '
-                  'reading (anchored comments) and by the generated constants, not by replay; the reconnect thread / connect() are '
-                  'outside all three models and are covered by schedule exploration only.',
+                  'conversion of the effect log to labels (harness) and the JSON glue.  Model (2) is tied to the source by '
+                  'reading (anchored comments) and by the generated constants, not by replay; connect(), the reconnect threads, '
+                  'the cancel event and the start gate of the workers are outside all models and are covered by schedule '
+                  'exploration (catalogue scenarios with a node that accepts connections again, systematic + long-preemption '
+                  'schedules) and by the monitors ShutdownClean / ShutdownFinal only.  Model (4) is tied to AsynTcp on the '
+                  'loopback interface of this kernel; AsynSerial is not covered.',
     'trusted': [
         'vlib.sched primitives behave like threading/queue (one thread runs at a time, yield before every primitive)',
         'code executed under SecopClient._request_lock is atomic with respect to the other sections under that lock',
         'the effect-log -> label conversion in harness/props/c11.py (checked by the replay: every label must be enabled)',
         'fewer than 30 requests are queued or parked at any time in the untimed model (the timed layer models the bound)',
         'timed layer: a caller whose put/wait time-out expired takes its step before the clock moves on (tick is not enabled past a blocked caller\'s deadline)',
+        'connection model: loopback TCP of the test machine stands for TCP (a peer action is given 30 ms to reach the client; the outcome sets are loose where the kernel is free)',
+        'end-to-end stream on real sockets: "promptly" = within 3 s of real time',
     ],
     'modelled_not_verified': [
         'queue.Queue, threading.Event, threading.RLock, Thread.join',
-        'AsynConn (scripted FakeConn: readline/send/shutdown/disconnect with the error behaviour of a TCP socket)',
+        'AsynTcp (Client/Conn.lean; replayed on loopback sockets) and its stand-in FakeConn (replayed on the same model; its '
+        'silent-loss mode send_error=false is an additional adversary outside that model)',
         'decode_msg / encode_msg_frame, the cache update of update-class messages, callbacks',
-        'connect() / _reconnect / the cancel event of the reconnect thread (exercised by the harness, not part of any model)',
+        'connect() / _reconnect / the cancel event / the start gate of the workers (exercised by the harness, not part of any model)',
         'timed layer: transcribed from the source, not replayed against runs',
     ],
     'assumptions': ['request identifiers are not "." (the rx thread maps "." to None)',
                     'replies carry no request id: a line that matches syntactically and arrives while the request is filed is its '
-                    'answer (reply_fresh_fails shows the stronger reading is unimplementable)'],
+                    'answer (reply_fresh_fails shows the stronger reading is unimplementable)',
+                    'a caller whose request is queued only after the client has connected anew is judged by the time bound only '
+                    '(the matching model is of one connection)'],
 }
 
 
 def run(ctx):
     res = Result()
-    res.rule = ('a case = 2..4 concurrent requests (equal/distinct keys, known/unknown actions, start delays) x scripted peer '
-                '(reply / error reply / interleaved updates / no answer / late answer / duplicate answer / drop) x optional '
-                'concurrent user disconnect x one schedule; non-trivial = the run has a parked request, or a time-out, or a '
-                'disconnect/drop while a request is pending, or at least two different outcome kinds; distinct = distinct '
-                'label sequences')
+    res.rule = ('a case = 0..4 concurrent requests (equal/distinct keys, known/unknown actions, start delays) x scripted peer '
+                '(reply / error reply / interleaved updates / no answer / late answer / duplicate answer / drop / accepts or '
+                'refuses further connections) x optional concurrent user disconnect x optional activated client x one schedule '
+                '(systematic with bounded preemptions, random, or one long preemption); non-trivial = the run has a parked '
+                'request, or a time-out, or a disconnect/drop while a request is pending, or at least two different outcome '
+                'kinds; distinct = distinct label sequences.  Connection stream: a script of peer actions and client calls on a '
+                'real AsynTcp / on FakeConn; non-trivial = the peer ended the connection and the client called something.  '
+                'End-to-end stream: one pending request on real sockets x how the connection is lost')
     rng = ctx.rng
     big = ctx.tier == 'thorough' or ctx.escalated
     maxpre = 3 if big else 2
@@ -918,6 +1174,11 @@ def run(ctx):
         runs.append((case, effective_schedule(obs), obs))
 
     shrunk = {}
+    try:
+        with open(os.path.join(ctx.verif, 'known_findings', 'C11.json')) as f:
+            known_sigs = {x['signature'] for x in json.load(f).get('findings', [])}
+    except OSError:
+        known_sigs = set()
 
     def flush():
         reqs, meta = [], []
@@ -957,6 +1218,10 @@ def run(ctx):
             for sig, what in found:
                 if sig in shrunk:
                     continue
+                if sig in known_sigs:       # recorded (its minimised replay is in the corpus): reported by name, not shrunk again
+                    shrunk[sig] = True
+                    res.violations.append({'sig': sig, 'what': what, 'case': {'case': case, 'schedule': schedule}})
+                    continue
                 c2, s2 = shrink(case, schedule, sig, ctx.driver)
                 shrunk[sig] = True
                 res.violations.append({'sig': sig, 'what': what, 'case': {'case': c2, 'schedule': s2},
@@ -971,15 +1236,20 @@ def run(ctx):
             c = json.load(open(os.path.join(cdir, fn)))
             do(c['case'], vsched.ReplayThenDefault(c['schedule']))
     # ---------- the catalogue, systematically ----------
-    per_case = ctx.budget(260, 3000)
+    per_case = ctx.budget(160, 1500)
     for case in catalogue():
+        res.count('catalogue-scenarios')
         case = {k: v for k, v in case.items() if k != 'name'}
         for prefix, obs in explore_case(case, maxpre, per_case, rng):
             runs.append((case, effective_schedule(obs), obs))
             if len(runs) >= 3000:
                 flush()
+        for name in hold_targets(case):
+            for k in range(ctx.budget(10, 40)):
+                res.count('hold-schedules')
+                do(case, HoldPolicy(name, k))
     # ---------- generated cases: a few systematic schedules, then random ones ----------
-    for _ in range(ctx.budget(160, 1500)):
+    for _ in range(ctx.budget(160, 1000)):
         case = gen_case(rng, big)
         for prefix, obs in explore_case(case, 1 if not big else 2, ctx.budget(6, 30), rng):
             runs.append((case, effective_schedule(obs), obs))
@@ -987,12 +1257,33 @@ def run(ctx):
                 flush()
         for _ in range(ctx.budget(6, 16)):
             do(case, vsched.RandomPolicy(rng, rng.choice([0.1, 0.3, 0.5])))
+        for _ in range(ctx.budget(3, 8)):
+            res.count('hold-schedules')
+            do(case, HoldPolicy(rng.choice(hold_targets(case)), rng.randrange(14)))
     flush()
+    conn_stream(ctx, res)
     return res
 
 
 def replay(ctx, rp):
     c = rp['case']
+    if 'conn_script' in c:
+        ev = run_conn(c['impl'], c['conn_script'])
+        a = ctx.driver.batch([{'p': 'C11', 'k': 'conn', 'events': ev}])[0]
+        print('script  :', c['conn_script'], 'on', c['impl'])
+        print('observed:', ev)
+        print('model   : refuses event', a['refused_at'], '| contract broken at event', a['first_bad'])
+        return 1 if a['first_bad'] is not None or a['refused_at'] is not None else 0
+    if 'e2e' in c:
+        from vlib import loopback
+        obs = loopback.run_client_drop(c['e2e'])
+        a = ctx.driver.batch([e2e_request(obs)])[0]
+        print('observed:', obs)
+        print('judge   :', a)
+        found = e2e_assess(obs, a)
+        for sig, what in found:
+            print('fails   :', sig, '-', what)
+        return 1 if found else 0
     case, schedule = c['case'], c['schedule']
     _, obs = run_case(case, vsched.ReplayThenDefault(schedule))
     r = requests_for(case, obs, schedule)
